@@ -184,8 +184,11 @@ def run(pid, tier, seed, replay, mode):
             rows = missing_rows(rs, scope, dom, tier)
             exh = False
         X = np.array([G.np_row(c, width, points) for c in rows], dtype=np.float32)
+        fp0 = G.fingerprint(root)
         try:
             L, LL, E = impl_eval(root, X)
+            if dist.get("purity_viol", 0) < 2 and not G.unchanged(root, fp0, "likelihood / log_likelihood", rep):
+                dist["purity_viol"] = dist.get("purity_viol", 0) + 1
         except Exception as e:      # a valid circuit and rows of in-domain / out-of-support values: inference must not raise
             bad_row = None
             for x in X:
